@@ -265,6 +265,89 @@ func c10Run(o c10Opts) vs.Verdict {
 	return f.verdict(strings.Join(summary, " "))
 }
 
+// c10CutRetry: request A's exchange is cut while its handler is still running; the client then
+// retries with a new POST B that reuses A's JSON-RPC id.  Whatever the server does with B
+// (refuse it as a duplicate of an in-flight id, or serve it), B's exchange must never carry the
+// response produced by A's handler.
+func c10CutRetry(store bool) vs.Verdict {
+	f := &e1Fail{prefix: "c10 cut-retry"}
+	ctx := context.Background()
+	ctl := vs.NewController()
+	gateA := ctl.Gate("A")
+	vs.Quiet(true)
+	s := NewServer(&Implementation{Name: "srv", Version: "1"}, &ServerOptions{Logger: quietLogger})
+	AddTool(s, &Tool{Name: "echo"}, func(ctx context.Context, r *CallToolRequest, in c10Args) (*CallToolResult, any, error) {
+		vs.Event("start %s", in.Tag)
+		if in.Tag == "A" {
+			gateA.Wait()
+		}
+		return &CallToolResult{Content: []Content{&TextContent{Text: in.Tag}}}, nil, nil
+	})
+	hopts := &StreamableHTTPOptions{Logger: quietLogger}
+	if store {
+		hopts.EventStore = NewMemoryEventStore(nil)
+	}
+	h := NewStreamableHTTPHandler(func(*http.Request) *Server { return s }, hopts)
+	post := func(rctx context.Context, sid, body string) *httptest.ResponseRecorder {
+		r := httptest.NewRequest("POST", "http://example.test/mcp", strings.NewReader(body)).WithContext(rctx)
+		r.Header.Set("Content-Type", "application/json")
+		r.Header.Set("Accept", "application/json, text/event-stream")
+		if sid != "" {
+			r.Header.Set("Mcp-Session-Id", sid)
+		}
+		r.Header.Set("Mcp-Protocol-Version", "2025-06-18")
+		w := httptest.NewRecorder()
+		h.ServeHTTP(w, r)
+		return w
+	}
+	w := post(ctx, "", `{"jsonrpc":"2.0","id":"i","method":"initialize","params":{"protocolVersion":"2025-06-18","capabilities":{},"clientInfo":{"name":"c","version":"1"}}}`)
+	sid := w.Header().Get("Mcp-Session-Id")
+	post(ctx, sid, `{"jsonrpc":"2.0","method":"notifications/initialized","params":{}}`)
+	body := func(tag string) string {
+		return fmt.Sprintf(`{"jsonrpc":"2.0","id":1,"method":"tools/call","params":{"name":"echo","arguments":{"tag":%q}}}`, tag)
+	}
+	actx, cut := context.WithCancel(ctx)
+	var recA, recB *httptest.ResponseRecorder
+	adone := make(chan struct{})
+	vs.Go(func() {
+		recA = post(actx, sid, body("A"))
+		close(adone)
+	})
+	vs.WaitIdle() // A's handler is parked
+	vs.Quiet(false)
+	cut()
+	<-adone
+	bdone := make(chan struct{})
+	vs.Go(func() {
+		recB = post(ctx, sid, body("B"))
+		close(bdone)
+	})
+	// A's handler returns whenever nothing else can run (the controller opens its gate when idle)
+	<-bdone
+	ctl.Stop()
+	vs.Quiet(true)
+	for ss := range s.Sessions() {
+		ss.Close()
+	}
+	vs.WaitIdle()
+	vs.Quiet(false)
+	_ = recA
+	obs := fmt.Sprintf("B:%d", recB.Code)
+	if recB.Code < 400 {
+		msgs, err := c10Messages(recB)
+		if err != nil {
+			f.failf("garbage-on-exchange", "exchange of B: %v", err)
+		}
+		for _, m := range msgs {
+			if kind, tag := c10TagOf(m); kind == "response" && tag != "B" {
+				f.failf("response-on-foreign-exchange", "request A's exchange was cut and request B reused its id: B's exchange carries the response of %s (%q)", tag, recB.Body.String())
+			}
+		}
+		obs += fmt.Sprintf("/%dmsg", len(msgs))
+	}
+	return f.verdict(obs)
+}
+
 func TestVerifC10(t *testing.T) {
 	env := verifx.LoadEnv("C10")
 	b := env.Pick(1, 2)
@@ -277,6 +360,8 @@ func TestVerifC10(t *testing.T) {
 		mk("stateless-sse", c10Opts{stateless: true}, b),
 		mk("stateful-sse/duplicate-in-flight-id", c10Opts{dupID: true}, env.Pick(2, 3)),
 		mk("stateful-sse+store/duplicate-in-flight-id", c10Opts{dupID: true, store: true}, env.Pick(2, 3)),
+		vs.E1(t, "stateful-sse/cut-then-retry-same-id", env.Pick(2, 3), vs.Options{}, func() vs.Verdict { return c10CutRetry(false) }),
+		vs.E1(t, "stateful-sse+store/cut-then-retry-same-id", env.Pick(2, 3), vs.Options{}, func() vs.Verdict { return c10CutRetry(true) }),
 	}
 	if !env.Quick() {
 		scs = append(scs, mk("stateless-json", c10Opts{stateless: true, jsonResp: true}, b), mk("stateful-sse+store", c10Opts{store: true}, b))
